@@ -89,7 +89,7 @@ class Repo:
 
     def find(self, key):
         """key = 'path.py:qual.name' -> (node, module, classnode|None)"""
-        rel, qual = key.split(":")
+        rel, qual = key.split("#")[0].split(":")
         m = self.module(rel)
         parts = qual.split(".")
         body, cls = m.tree.body, None
@@ -110,5 +110,5 @@ class Repo:
         node, m, _ = self.find(key)
         seg = ast.get_source_segment(m.source, node) or ""
         first = min([node.lineno] + [d.lineno for d in getattr(node, "decorator_list", [])])
-        return dict(path=m.rel, qualname=key.split(":")[1], first_line=first, last_line=node.end_lineno,
+        return dict(path=m.rel, qualname=key.split("#")[0].split(":")[1], first_line=first, last_line=node.end_lineno,
                     sha256=hashlib.sha256(seg.encode()).hexdigest())
